@@ -87,7 +87,7 @@ def prepare(cid, spec, op):
 def do_op(cid, spec, op, pre=None):
     res = {"outs": [], "raised": None, "writes": [], "emitted": []}
     kind = op["op"]
-    if kind in ("rows", "abandon", "noclose", "validate", "late"):
+    if kind in ("rows", "abandon", "noclose", "validate", "late", "byhand"):
         text = V.encode(spec, op["table"], broken_tail=op.get("fault", False))
         stream = io.StringIO(text, newline="")
     try:
@@ -128,6 +128,22 @@ def do_op(cid, spec, op, pre=None):
                     outs.append(r)
             finally:
                 res["outs"] = canon_outs(outs, spec)
+        elif kind == "byhand":
+            # a Reader used without `with`: the pass (also one that cannot start), then close() by hand
+            reader = validio.Reader(cid, stream, on_error=op["mode"], validate_until=op["limit"])
+            outs = []
+            try:
+                for r in reader.rows():
+                    outs.append(r)
+            except Exception as e:  # noqa
+                res["raised"] = V.canon_error(e, spec)
+            res["outs"] = canon_outs(outs, spec)
+            try:
+                reader.close()
+                res["writes"].append(None)
+            except Exception as e:  # noqa
+                res["writes"].append(V.canon_error(e, spec))
+            return res
         elif kind == "late":
             first = op["first"]
             if first["kind"] == "read":
@@ -203,6 +219,8 @@ def coq_op(spec, op):
         else:
             F = "(LFWrite %s)" % L(first["rows"], lambda r: L(r, S))
         return "(OpLate %s %s %s %s %s %s)" % (F, V.MODES[op["mode"]], O(op["limit"], Nat), R, B(fault), Nat(op["j"]))
+    if kind == "byhand":
+        return "(OpByHand %s %s %s %s)" % (V.MODES[op["mode"]], O(op["limit"], Nat), R, B(fault))
     if kind == "abandon":
         return "(OpAbandon %s %s %s %s %s)" % (V.MODES[op["mode"]], O(op["limit"], Nat), R, B(fault), Nat(op["k"]))
     return "(OpNoClose %s %s %s %s)" % (V.MODES[op["mode"]], O(op["limit"], Nat), R, B(fault))
@@ -338,6 +356,16 @@ def gen_inputs(tier, rnd):
                     one = {"op": "noclose", "mode": mode, "limit": limit, "table": table}
                     again = dict(one, same_reader=True)
                     yield {"spec": spec, "history": [one, again, again]}
+    # a Reader used without `with` and closed by hand, also when its pass cannot even start (an unterminated quote in
+    # the first row): the end checks are judged on what this pass saw
+    hand = [{"op": "byhand", "mode": m, "limit": None, "table": t, "fault": f}
+            for m in ("raise", "yield") for t, f in (([], True), (CLEAN, False), (DUP, False), (THREE, False), (THREE, True), ([], False))]
+    for spec in (SPEC, SPEC_GE):
+        for one in hand:
+            yield {"spec": spec, "history": [one]}
+            for other in ALPHABET[:6]:
+                yield {"spec": spec, "history": [other, one]}
+                yield {"spec": spec, "history": [other, one, other]}
     for late in LATE:
         yield {"spec": SPEC, "history": [late]}
         for other in ALPHABET:
@@ -347,7 +375,7 @@ def gen_inputs(tier, rnd):
         spec = V.gen_spec(rnd, fmt="delimited", header=rnd.choice([0, 0, 1]))
         hist = []
         for _ in range(rnd.randint(2, 6 if tier == "quick" else 12)):
-            k = rnd.choice(["rows", "rows", "validate", "abandon", "noclose", "write", "late"])
+            k = rnd.choice(["rows", "rows", "validate", "abandon", "noclose", "write", "late", "byhand"])
             if k == "late":
                 if rnd.random() < 0.6:
                     first = {"kind": "read", "mode": rnd.choice(["raise", "yield", "continue"]), "limit": rnd.choice([None, None, 1]),
